@@ -1,11 +1,15 @@
 """C08 - TLS ClientHello reassembly is segmentation-invariant and reports exactly once.
 
-Structural clauses decided (DESIGN.md §5 C08):
+Structural clauses decided:
  R1 the parser is applied to exactly buffer[..5+record_len], only when that many bytes are buffered
- R2 once: bytes are appended only while no signature was produced; the success arm records the signature
+ R2 once: bytes are appended only while no signature was produced; the success arm records the signature; reset() restores
+    every field the other methods modify
  R3 flow lifecycle: the flow is dropped after a result and after a parse error; new flows are admitted only on a
-    TLS handshake header; a tracked flow always reaches add_bytes; the flow key is this packet's directed 4-tuple
+    TLS handshake header (path rule over all entry->insert paths; record versions 0x0300..=0x0304); a tracked flow always
+    reaches add_bytes and is never turned away by the header check; the flow key is this packet's directed 4-tuple; nothing but
+    the owner's removals (and TTL) shrinks the flow cache; the reader is fed the IP payload; reported endpoints pair address and port
  R4 size cap: records above 64 KiB are refused (buffer cleared, error) before parsing
+ C18.R2 the parallel dispatch hash looks at the connection identity only
 """
 from ..engine import cfg as C
 from ..engine import paths as PA
@@ -337,7 +341,16 @@ def rule_reset(ctx):
     RS.reset_complete(ctx, ctx.program, "R2", "TlsClientHelloReader")
 
 
+def rule_dispatch(ctx):
+    """in parallel mode all segments of a connection must reach the worker that holds its reader: the dispatch hash looks at the
+    connection identity only (shared with C18.R2)"""
+    from ..engine import report as R
+    from . import C18
+    C18.rule_R2(R.Retag(ctx, "C18."))
+
+
 def run(ctx):
+    rule_dispatch(ctx)
     rule_reset(ctx)
     rule_segments(ctx)
     rule_reader(ctx)
